@@ -883,6 +883,16 @@ class Tr:
             self.lambdas[v['id']] = info
             return
         ct = map_type(q)
+        if v.get('constexpr') and ini:
+            # constexpr locals that only feed `if constexpr` (already resolved by clang): try, and drop if not expressible;
+            # a later run-time use of a dropped constant is an error (unknown DeclRef)
+            self.pre.append([])
+            try:
+                self.e(ini[0])
+            except Unsupported:
+                self.pre.pop()
+                return
+            self.pre.pop()
         cn = self.uniq(name or '__anon')
         self.locals[v['id']] = cn
         if ct.ref:
